@@ -151,6 +151,51 @@ func init() {
 			},
 		},
 		{
+			// XMP streams that end (or go on) where the parser's 1538-byte window ends: a root start
+			// tag or a token that fills the window exactly, with the end of the stream behind it
+			Name: "xmp-window-edge", Weight: 1,
+			N: func(tier string, seed uint64) uint64 {
+				if tier == "thorough" {
+					return 200000
+				}
+				return 20000
+			},
+			Run: func(c *Ctx) {
+				g := c.L("gen")
+				fill := func(n int) string {
+					b := make([]byte, n)
+					for i := range b {
+						b[i] = "a b='c'\n"[g.Intn(8)]
+					}
+					return string(b)
+				}
+				n := 1538 - 12 + g.Intn(24)
+				if g.Chance(1, 4) {
+					n = g.Intn(3200)
+				}
+				var pkt string
+				switch g.Intn(4) {
+				case 0: // the root start tag never ends
+					pkt = "<x:xmpmeta" + fill(n)
+				case 1: // ... or ends behind the window
+					pkt = "<x:xmpmeta" + fill(n) + "><rdf:RDF xmlns:rdf='http://www.w3.org/1999/02/22-rdf-syntax-ns#'><rdf:Description rdf:about='' xmlns:tiff='http://ns.adobe.com/tiff/1.0/' tiff:Make='x'/></rdf:RDF></x:xmpmeta>"
+				case 2: // an attribute value that never ends
+					pkt = "<x:xmpmeta xmlns:x='adobe:ns:meta/'><rdf:RDF xmlns:rdf='http://www.w3.org/1999/02/22-rdf-syntax-ns#'><rdf:Description rdf:about='' xmlns:tiff='http://ns.adobe.com/tiff/1.0/' tiff:Make='" + strings.Repeat("m", n)
+				default: // an element value that never ends
+					pkt = "<x:xmpmeta xmlns:x='adobe:ns:meta/'><rdf:RDF xmlns:rdf='http://www.w3.org/1999/02/22-rdf-syntax-ns#'><rdf:Description rdf:about='' xmlns:tiff='http://ns.adobe.com/tiff/1.0/'><tiff:Make>" + strings.Repeat("m", n)
+				}
+				if g.Chance(1, 3) {
+					pkt = fill(g.Intn(40)) + pkt
+				}
+				o := &opCase{data: []byte(pkt), name: fmt.Sprintf("xmp-edge(len=%d)", len(pkt)), e: harness.EntryByName("xmp.ParseXmp"), trunc: -1}
+				o.spec.RK = c.L("cfg").Intn(harness.NumRK)
+				d := drawDelivery(c.L("dev:0"))
+				c.Inc("fault:short(" + []string{"whole", "const", "random", "dribble", "aligned"}[d.Piece] + "):configured")
+				c.Descf("%s delivery=%s", o, d)
+				c08Compare(c, o, d)
+			},
+		},
+		{
 			// the reader exif2.NewIfdReader returns, called directly on an Exif block (as a
 			// container scanner calls it) with the caller's own reader: the block ends the stream,
 			// is cut short, or is followed by other bytes
